@@ -5,6 +5,7 @@ import Octo.Lemmas.OpsSortRun
 import Octo.Lemmas.OpsUnnest
 import Octo.Lemmas.OpsBufferProps
 import Octo.Lemmas.OpsCtgb
+import Octo.Lemmas.OpsExamples
 /-!
 # C15 — Operators keep a valid changelog and compute incrementally what batch computes
 
@@ -275,5 +276,122 @@ theorem ctgb_spec (agg : GAgg α) (spec : List Row → Row) (hagg : GAggOK agg s
       have hq := hadd q List.mem_cons_self
       simp only [net, weight_eq, sgn, hq, List.map_cons, cnt, ih (fun a ha => hadd a (List.mem_cons_of_mem _ ha))]
       simp
+
+/-! # The full-strength statement, its refutation on the current tree, and what does hold -/
+
+/-- what C15 demands of one operator: on every valid changelog (satisfying the operator's structural
+    side conditions `Side`) the output is a valid changelog and its consolidation is `spec` of the
+    consolidated input -/
+def Holds (run : List Msg → Out) (spec : List Row → Row → Int) (Side : List Msg → Prop) : Prop :=
+  ∀ ms, Side ms → ValidLog (recs ms) →
+    ValidLog (recs (run ms).1) ∧ ∀ rows, Consolidates rows (recs ms) → ∀ y, net (recs (run ms).1) y = spec rows y
+
+/-- **C15 at full strength**: every operator, every valid changelog.  `extraLookup` / `extraTime`
+    are the hypotheses that the current tree needs in addition (`fun _ => True` = none). -/
+structure StatementWith (extraLookup : (Row → List Msg) → Prop) (extraTime : List Msg → Prop) : Prop where
+  filter : ∀ p, PredCongr p → Holds (filterOp fun x => .ok (p x)).run (fun rows => cnt (filterB p rows)) (fun _ => True)
+  map : ∀ f, RowCongr f → Holds (mapOp fun x => .ok (f x)).run (fun rows => cnt (mapB f rows)) (fun _ => True)
+  distinct : Holds distinctOp.run distinctSpec (fun _ => True)
+  unnest : ∀ idx, Holds (unnestOp idx).run (fun rows => cnt (unnestB idx rows)) (fun ms => ∀ r ∈ recs ms, idx < r.vals.length)
+  groupBy : ∀ (α : Type) (agg : GAgg α) (spec : List Row → Row) (kf inf : Row → Row), GAggOK agg spec → RowCongr kf →
+    RowCongr inf →
+    Holds (simpleGroupOp agg (fun x => .ok (kf x)) (fun x => .ok (inf x))).run (fun rows => cnt (groupB spec kf inf rows)) (fun _ => True)
+  groupByCustom : ∀ (α : Type) (agg : GAgg α) (spec : List Row → Row) (kf inf : Row → Row) (etIdx : Option Nat),
+    GAggOK agg spec → RowCongr kf → RowCongr inf → (∀ x out, ∃ et, ctgbEventTime etIdx (kf x ++ out) = .ok et) →
+    Holds (fun ms => ctgbNode agg (fun x => .ok (kf x)) (fun x => .ok (inf x)) etIdx ms false)
+      (fun rows => cnt (groupB spec kf inf rows)) (fun ms => InRange ms ∧ extraTime ms)
+  lookupJoin : ∀ J : Row → List Msg, (∀ y, Congr (fun x => lookupK J x y)) → extraLookup J →
+    Holds (lookupOp fun x => (J x, none)).run (lookupSpec fun x => recs (J x)) (fun _ => True)
+  orderBy : ∀ (c : SortCfg) (noRetr : Bool),
+    Holds (orderOp c.dirs (fun x => .ok (c.kf x)) none noRetr).run (fun rows => cnt rows) (fun ms => ∀ r ∈ recs ms, r.vals.length = c.w)
+  eventTimeBuffer : Holds etbOp.run (fun rows => cnt rows) (fun ms => InRange ms ∧ extraTime ms)
+
+/-- the property as stated: no extra hypotheses -/
+def Statement : Prop := StatementWith (fun _ => True) (fun _ => True)
+
+/-! ### witnesses -/
+def r1 : Row := [.int 1]
+/-- joined side that adds a row and takes it back -/
+def Jflip : Row → List Msg := fun _ =>
+  [.data { vals := r1, retr := false, et := none }, .data { vals := r1, retr := true, et := none }]
+/-- source: the same -/
+def srcFlip : List Msg := Jflip []
+
+/-- a retraction (zero event time) whose addition carries event time 11 -/
+def srcOvertake : List Msg :=
+  [.data { vals := r1, retr := false, et := some 11 }, .wm 9, .data { vals := r1, retr := true, et := none }]
+
+example : ValidLog (recs srcFlip) := validLog_of_validLogB _ (by decide)
+example : ValidLog (recs srcOvertake) := validLog_of_validLogB _ (by decide)
+
+/-- LookupJoin re-emits the joined changelog with flipped signs in the same order: the third
+    message retracts an absent row -/
+theorem lookup_refuted : ¬ (∀ J : Row → List Msg, (∀ y, Congr (fun x => lookupK J x y)) →
+    Holds (lookupOp fun x => (J x, none)).run (lookupSpec fun x => recs (J x)) (fun _ => True)) := by
+  intro h
+  have hv : ValidLog (recs srcFlip) := validLog_of_validLogB _ (by decide)
+  have hJ : ∀ y, Congr (fun x => lookupK Jflip x y) := by
+    intro y x x' hx
+    simp only [lookupK, lookupRecs, Jflip, recs, List.map, net, weight_eq,
+      rowEq_congr_left (rowEq_append hx (rowEq_refl r1)) y, sgn]
+  have := (h Jflip hJ srcFlip trivial hv).1 3 (r1 ++ r1)
+  revert this; decide
+
+/-- the EventTimeBuffer releases the zero-time retraction before its buffered addition -/
+theorem etb_refuted : ¬ Holds etbOp.run (fun rows => cnt rows) (fun ms => InRange ms ∧ True) := by
+  intro h
+  have hv : ValidLog (recs srcOvertake) := validLog_of_validLogB _ (by decide)
+  have hr : InRange srcOvertake := by
+    intro r hr t ht
+    simp only [srcOvertake, recs, List.mem_cons, List.not_mem_nil, or_false] at hr
+    rcases hr with rfl | rfl <;> simp at ht
+    subst ht; decide
+  have := (h srcOvertake ⟨hr, trivial⟩ hv).1 1 r1
+  revert this; decide
+
+/-- **C15 is refuted on the current tree** (two independent witnesses; both reproduced on the real
+    nodes: known findings `lookup-join-retracting-joined-side`, `event-time-buffer-reorders-retraction`) -/
+theorem C15_refuted : ¬ Statement := by
+  intro h
+  exact lookup_refuted (fun J hJ => h.lookupJoin J hJ trivial)
+
+/-- **What holds**: the full statement for every operator, with exactly two extra hypotheses —
+    the joined side of a lookup join emits additions only; for the event-time buffer (alone and in
+    front of CustomTriggerGroupBy) the event time is a function of the row. -/
+theorem C15_partial :
+    StatementWith (fun J => ∀ x, ∀ j ∈ recs (J x), j.retr = false) (fun ms => EtByRow (recs ms)) where
+  filter p hp ms _ hv := ⟨filter_valid_out p hp ms hv, fun rows hc y => filter_net_commutes p hp ms rows hc y⟩
+  map f hf ms _ hv := ⟨map_valid_out f hf ms hv, fun rows hc y => map_net_commutes f hf ms rows hc y⟩
+  distinct ms _ hv := ⟨distinct_valid_out ms hv, fun rows hc y => distinct_net_commutes ms hv rows hc y⟩
+  unnest idx ms hi hv := ⟨unnest_valid_out idx ms hi hv, fun rows hc y => unnest_net_commutes idx ms hi rows hc y⟩
+  groupBy _ agg spec kf inf hagg hk hi ms _ hv :=
+    ⟨(sgroup_valid_out agg spec hagg kf inf hk hi ms hv).1, fun rows hc y => sgroup_net_commutes agg spec hagg kf inf hk hi ms hv rows hc y⟩
+  groupByCustom _ agg spec kf inf etIdx hagg hk hi hEt ms hside hv := by
+    have hcons := consolidate_correct hv
+    have h := ctgb_spec agg spec hagg kf inf hk hi etIdx hEt ms hside.1 hside.2 hv
+    constructor
+    · rw [validLog_iff_validFrom]
+      exact validFrom_adds (fun _ => Int.le_refl 0) _ (h _ hcons).2.1
+    · intro rows hc y; exact (h rows hc).2.2 y
+  lookupJoin J hJ hadd ms _ hv := ⟨lookup_valid_out J hJ hadd ms hv, fun rows hc y => lookup_net_commutes J hJ ms rows hc y⟩
+  orderBy c noRetr ms hw hv := ⟨order_valid_out c none noRetr ms, fun rows hc y => order_net_commutes c noRetr ms hv hw rows hc y⟩
+  eventTimeBuffer ms hside hv := ⟨etb_valid_out ms hside.1 hside.2 hv, fun rows hc y => etb_net_commutes ms hside.1 rows hc y⟩
+
+/-! ### the hypotheses are satisfiable by non-trivial instances -/
+example : PredCongr (fun x => Value.bool (rowEq x [Value.int 1])) := by
+  intro x x' h; simp only [rowEq_congr_left h]
+example : RowCongr (fun x => x ++ [.int 5]) := fun _ _ h => rowEq_append h (rowEq_refl _)
+example : GAggOK countAgg countSpec := countAgg_ok
+/-- ORDER BY a constant key, descending: rows are ordered by their values -/
+def exampleCfg : SortCfg :=
+  { dirs := [-1], w := 2, kf := fun _ => [.int 0], hd := by intro d hd; simp at hd; simp [hd], hkl := fun _ => rfl,
+    hk := fun _ _ _ => rowEq_refl _ }
+example : EtByRow (recs [.data { vals := r1, retr := false, et := some 3 }, .wm 5, .data { vals := r1, retr := true, et := some 3 }]) := by
+  intro a ha b hb _
+  simp only [recs, List.mem_cons, List.not_mem_nil, or_false] at ha hb
+  rcases ha with rfl | rfl <;> rcases hb with rfl | rfl <;> rfl
+/-- the theorems are about runs that really emit retractions: Distinct on `+a +a -a -a` -/
+example : (outRecs distinctOp [.data ⟨r1, false, none⟩, .data ⟨r1, false, none⟩, .data ⟨r1, true, none⟩,
+    .data ⟨r1, true, none⟩]).map (·.retr) = [false, true] := by decide
 
 end Octo.C15
